@@ -143,15 +143,15 @@ Proof.
 Qed.
 
 (* ---------------- perfect matching ---------------- *)
-Theorem matching_T1_final a n es : graph_wf n es = true ->
+Theorem matching_T1_final a n es : simple_graph_wf n es = true ->
   (cnf_sat a (to_cnf (matching_ir n es)) = true <-> perfect_matching n (matching_sel a es)) /\
   (opb_sat a (to_opb (matching_ir n es)) = true <-> perfect_matching n (matching_sel a es)).
 Proof. intros Hwf. apply irs_transfer; [apply matching_ok|now apply matching_T1]. Qed.
-Theorem matching_T2_final n es (obj : Z * Z -> bool) : graph_wf n es = true -> perfect_matching n (filter obj es) ->
+Theorem matching_T2_final n es (obj : Z * Z -> bool) : simple_graph_wf n es = true -> perfect_matching n (filter obj es) ->
   exists a, cnf_sat a (to_cnf (matching_ir n es)) = true /\ opb_sat a (to_opb (matching_ir n es)) = true /\
             matching_sel a es = filter obj es.
 Proof. intros Hwf HP. apply (final_T2 (matching_ir n es)); [apply matching_ok|now apply matching_T2]. Qed.
-Theorem matching_sat_iff_final n es : graph_wf n es = true ->
+Theorem matching_sat_iff_final n es : simple_graph_wf n es = true ->
   ((exists a, cnf_sat a (to_cnf (matching_ir n es)) = true) <-> exists obj, perfect_matching n (filter obj es)) /\
   ((exists a, opb_sat a (to_opb (matching_ir n es)) = true) <-> exists obj, perfect_matching n (filter obj es)).
 Proof. intros Hwf. apply final_sat; [apply matching_ok|now apply matching_sat_iff_exists]. Qed.
